@@ -28,6 +28,10 @@ LIMIT = {"quick": 20, "thorough": 24}
 WATCHDOG_S = {"quick": 1500, "thorough": 4 * 3600}
 
 
+# thorough tier: coverage-guided (atheris) drive of the same generator and oracle: kind -> (shards, cases per shard)
+FUZZ = {"generated": (16, 20000)}
+
+
 def plan(tier):
     return [("exhaustive", 16, 0), ("generated", 16, (30000 if tier == "quick" else 600000) // 16)]
 
